@@ -174,6 +174,46 @@ pub fn b_string_scalar<S: Src>(s: &mut S) -> Result<(), String> {
 }
 harness!(c31_string_scalar, b_string_scalar, 4);
 
+/// A value of ANY of the nine kinds. The scalar kinds carry full-width payloads; the heap kinds carry one of two
+/// fixed tiny payloads - the cross-kind part of `Ord` depends on the kinds only, so this is what the cross-kind
+/// laws need (same-kind laws of the heap kinds are the string/vector harnesses).
+pub fn any_kind<S: Src>(s: &mut S) -> Value {
+    let k = s.u8();
+    s.assume(k < 9);
+    let alt = s.bool();
+    match k {
+        0 => Value::Int32(s.i32()),
+        1 => Value::Int64(s.i64()),
+        2 => Value::Float64(s.f64()),
+        3 => Value::Bool(alt),
+        4 => Value::Null,
+        5 => Value::Timestamp(s.i64()),
+        6 => Value::string(if alt { "a" } else { "b" }),
+        7 => Value::vector(if alt { vec![0.5f32] } else { Vec::new() }),
+        _ => Value::vector_int8(if alt { vec![1i8] } else { Vec::new() }),
+    }
+}
+pub fn b_kind_pair<S: Src>(s: &mut S) -> Result<(), String> {
+    let a = any_kind(s);
+    let b = any_kind(s);
+    cover!(matches!((&a, &b), (Value::String(_), Value::Timestamp(_))), "string vs timestamp");
+    cover!(matches!((&a, &b), (Value::Vector(_), Value::Null)), "vector vs null");
+    cover!(a == b, "equal pair");
+    laws2(&a, &b)
+}
+harness!(c31_kind_pair, b_kind_pair, 12);
+pub fn b_kind_triple<S: Src>(s: &mut S) -> Result<(), String> {
+    let a = any_kind(s);
+    let b = any_kind(s);
+    let c = any_kind(s);
+    cover!(
+        matches!((&a, &b, &c), (Value::String(_), Value::Int64(_), Value::VectorInt8(_))),
+        "three kinds"
+    );
+    laws3(&a, &b, &c)
+}
+harness!(c31_kind_triple, b_kind_triple, 6);
+
 /// float vectors of length <= 2 with arbitrary f32 bit patterns
 fn any_vec<S: Src>(s: &mut S) -> Value {
     let n = s.u8();
@@ -296,6 +336,8 @@ pub fn register(v: &mut Vec<(&'static str, NativeBody)>) {
     v.push(("c31_float_triple", b_float_triple::<NativeSrc>));
     v.push(("c31_string_pair", b_string_pair::<NativeSrc>));
     v.push(("c31_string_scalar", b_string_scalar::<NativeSrc>));
+    v.push(("c31_kind_pair", b_kind_pair::<NativeSrc>));
+    v.push(("c31_kind_triple", b_kind_triple::<NativeSrc>));
     v.push(("c31_vector_pair", b_vector_pair::<NativeSrc>));
     v.push(("c31_vector8_pair", b_vector8_pair::<NativeSrc>));
     v.push(("c31_tuple1_pair", b_tuple1_pair::<NativeSrc>));
